@@ -260,6 +260,11 @@ int32_t jls_raw_wr_payload(struct jls_raw_s * self, uint32_t payload_length, con
     if (hdr->tag == JLS_TAG_INVALID) {
         RLE(jls_raw_rd_header(self, hdr));
     }
+    if (payload_length != hdr->payload_length) {
+        JLS_LOGE("payload length %" PRIu32 " does not match the chunk header: %" PRIu32,
+                 payload_length, hdr->payload_length);
+        return JLS_ERROR_PARAMETER_INVALID;
+    }
     if (!payload_length) {
         if (self->backend.fpos >= self->backend.fend) {
             self->last_payload_length = 0;  // the chunk just appended has no payload
